@@ -47,7 +47,9 @@ TRUSTED = ["z3 5.1.0 / cvc5 1.0.3", "numpy vector algebra is exact real algebra 
            "sentinel; str.upper() exact on a single ASCII character and uninterpreted on every other string (CASE_MAP_UNINTERPRETED)",
            "users: rnapolis.tertiary.torsion_angle called from rnapolis.annotator is used through its contract (verified target here); "
            "Residue3D.find_atom through its contract (verified target here and in C04 / C11)"]
-ASSUMPTIONS = ["A-real: machine floats treated as mathematical reals; isnan() never true on real terms",
+ASSUMPTIONS = ["A-real: machine floats treated as mathematical reals; isnan() never true on real terms; `float(\"nan\")` has no value in the model and is an exit of its own kind "
+               "(NotAReal): the obligation safe.no_NotAReal[..] demands that it is unreachable under the contract's requires (tertiary_v2.calculate_torsion_angle: the "
+               "collinearity guard is exactly the negation of the requires)",
                "atan2(y, x) is *the* angle of the point (x, y); only scale invariance is used by the proof",
                "rigid motion (contracts/torsion_rot_c.py, proved by SMT): a rigid motion is p -> R p + t with R nine reals satisfying R^T R = I and "
                "det R = 1 EXACTLY, over the reals; the lemmas are about the specification terms of the two code contracts (their guards and the "
@@ -110,6 +112,7 @@ def bounded(tier, seed):
     n = 400 if tier == "quick" else 6000
     cases = [(rng.uniform(-math.pi, math.pi), rng.randrange(10 ** 9)) for _ in range(n)]
     cases += [(p, k) for k, p in enumerate([math.pi, math.pi / 2, -math.pi / 2, 0.0, 1e-3, -1e-3, math.pi - 1e-3, -math.pi + 1e-3, math.radians(-160)])]
+    cases += [(rng.uniform(-math.pi, math.pi), rng.randrange(10 ** 9), "wide") for _ in range(n // 4)]
     ev, viol, nt = 0, {}, 0
     for c in cases:
         ev += 1
@@ -128,7 +131,8 @@ def bounded(tier, seed):
                     f"{len(files)} structures x 4 letters", sig=os.path.basename, relates="Residue3D.chi")
     return [planar, chi, {"name": "constructed-dihedral", "evaluations": ev, "distinct_nontrivial": nt, "violations": list(viol.values()),
              "samples": [{"phi": cases[0][0], "seed": cases[0][1]}],
-             "rule": "phi uniform in (-pi, pi] plus boundary values, bond lengths 0.8-2.5, bond angles 20-160 deg, random rotation and translation (+-300 A); non-trivial = |sin phi| > 1e-3",
+             "rule": "phi uniform in (-pi, pi] plus boundary values, bond lengths 0.8-2.5, bond angles 20-160 deg, random rotation and translation (+-300 A); non-trivial = |sin phi| > 1e-3; "
+                     "plus a quarter as many 'wide' constructions (bond lengths 0.04-40, bond angles 0.3-179.7 deg: outside the chemical range, inside both implementations' collinearity guards)",
              "bound": f"{len(cases)} constructions"}]
 
 
